@@ -360,6 +360,8 @@ func runC03(c *report.Ctx) {
 	rulePrevOutputPerInput(c)
 	ruleBranchCacheComplete(c)
 	ruleEngineFlagsPerInput(c)
+	ruleCryptoKeySealing(c)
+	ruleSignErrorReturned(c)
 }
 
 // passedExecute: block b is dominated by the block of the Execute call (the check follows the call).
